@@ -20,7 +20,19 @@ type wmRef struct {
 	exempt map[uint64]int      // begins issued while the mark was already entitled to stand at or above the index
 	caps   map[uint64][]uint64 // for each exempt begin still outstanding: where the mark may stand at most (the bound at begin time)
 	seen   map[uint64]bool
-	U, L   uint64 // upper / lower bound for DoneUntil (running maxima)
+	order  []uint64 // the seen indices, ascending
+	U, L   uint64   // upper / lower bound for DoneUntil (running maxima)
+}
+
+func (r *wmRef) see(t uint64) {
+	if r.seen[t] {
+		return
+	}
+	r.seen[t] = true
+	i := sort.Search(len(r.order), func(i int) bool { return r.order[i] >= t })
+	r.order = append(r.order, 0)
+	copy(r.order[i+1:], r.order[i:])
+	r.order[i] = t
 }
 
 func newWmRef() *wmRef {
@@ -28,11 +40,7 @@ func newWmRef() *wmRef {
 }
 
 func (r *wmRef) recompute() {
-	var idx []uint64
-	for t := range r.seen {
-		idx = append(idx, t)
-	}
-	sort.Slice(idx, func(i, j int) bool { return idx[i] < idx[j] })
+	idx := r.order
 	var candU, candL uint64
 	blockedU, blockedL := false, false
 	for _, t := range idx {
@@ -68,7 +76,7 @@ func (r *wmRef) recompute() {
 }
 
 func (r *wmRef) begin(t uint64) {
-	r.seen[t] = true
+	r.see(t)
 	r.out[t]++
 	r.outc[t]++
 	if r.U >= t {
@@ -79,7 +87,7 @@ func (r *wmRef) begin(t uint64) {
 }
 
 func (r *wmRef) done(t uint64) {
-	r.seen[t] = true
+	r.see(t)
 	// A Done that precedes its Begin (recovery) admits two readings: plain counting ("begun more
 	// often than finished": the later Begin is evened out) or "sets the mark" (the later Begin is
 	// outstanding). The upper bound uses the first, the lower bound the second: both are accepted.
@@ -114,17 +122,14 @@ func (r *wmRef) clone() *wmRef {
 	for k, v := range r.seen {
 		c.seen[k] = v
 	}
+	c.order = append([]uint64(nil), r.order...)
 	c.U, c.L = r.U, r.L
 	return c
 }
 
 // key: canonical form of the reference state (for deduplicating candidate linearizations)
 func (r *wmRef) key(b []byte) []byte {
-	var idx []uint64
-	for t := range r.seen {
-		idx = append(idx, t)
-	}
-	sort.Slice(idx, func(i, j int) bool { return idx[i] < idx[j] })
+	idx := r.order
 	b = append(b, byte(r.U), byte(r.U>>8), byte(r.L), byte(r.L>>8))
 	for _, t := range idx {
 		b = append(b, byte(t), byte(t>>8), byte(r.out[t]+64), byte(r.outc[t]), byte(r.exempt[t]), byte(len(r.caps[t])))
@@ -590,7 +595,13 @@ func c13Units(tier string) []Unit {
 		}
 	}
 	// many marks in flight: more than the channel buffer (100)
-	for _, n := range []int{101, 103} {
+	overflowN := []int{101}
+	burstPairs := []int{50}
+	if tier == "thorough" {
+		overflowN = []int{101, 103, 150}
+		burstPairs = []int{49, 50, 51}
+	}
+	for _, n := range overflowN {
 		n := n
 		units = append(units, Unit{Name: fmt.Sprintf("overflow/marks=%d", n), Weight: 10, Run: func(c *Ctx) {
 			var a, b []wmStep
@@ -641,7 +652,11 @@ func c13Units(tier string) []Unit {
 	}
 	// hundreds of indices tracked at once behind one open index, then the drain: 1 stays open while 2..n are begun
 	// and all but one of them finished, then 1 finishes (internal containers grow and shrink across their thresholds)
-	for _, n := range []int{300, 700} {
+	holders := []int{300}
+	if tier == "thorough" {
+		holders = []int{300, 700, 1500}
+	}
+	for _, n := range holders {
 		n := n
 		units = append(units, Unit{Name: fmt.Sprintf("long-holder/%d-indices", n), Weight: 10, Run: func(c *Ctx) {
 			hold := uint64(n - 100)
@@ -665,7 +680,7 @@ func c13Units(tier string) []Unit {
 	}
 	// a burst that fills the channel buffer with finished work, then an index that stays open while a higher one is
 	// begun and finished: marks must be counted in the order in which their calls returned, also beyond the buffer
-	for _, pairs := range []int{49, 50, 51} {
+	for _, pairs := range burstPairs {
 		pairs := pairs
 		units = append(units, Unit{Name: fmt.Sprintf("overflow/burst-of-%d-pairs-then-open-index", pairs), Weight: 10, Run: func(c *Ctx) {
 			var a []wmStep
@@ -701,6 +716,6 @@ func init() {
 			"preemption-bounded: context switches at blocking points are free, preemptions limited per the unit's bound",
 			"indices are the ones that were begun or finished; between the reference lower and upper bound either behaviour is accepted",
 		},
-		QuickS: 90, ThoroughS: 900,
+		QuickS: 120, ThoroughS: 900,
 	}
 }
